@@ -104,6 +104,13 @@ def gen_instance(rng, allow_ext=True):
                         inst[sp_] = dict(inst[sp_])
                         inst[sp_][key] = gen.junk_upper_triangles(rng, inst, inst[sp_][key])
     inst.pop('planted', None)
+    if kind in ('conelp', 'coneqp') and solver is None and rng.random() < 0.2:
+        # semidefinite blocks of order zero are legal (they contribute no rows): the caller's dims must
+        # come back exactly as given
+        ss = list(inst['dims']['s'])
+        for _ in range(rng.randint(1, 2)):
+            ss.insert(rng.randrange(len(ss) + 1), 0)
+        inst['dims'] = dict(inst['dims'], s=ss)
     if kind in ('cpl', 'cp') and allow_ext and rng.random() < 0.2:
         inner = gen_instance(rng, allow_ext=False)
         while inner['kind'] in ('cpl', 'cp'):
